@@ -18,7 +18,7 @@ pub const DEF: PropDef = PropDef {
     rule: "cases = (protocol name, suite, backend pair, payload length per handshake message in 0..=max, transport script of up to 30 messages with direction interleaving, stateful/stateless per side, stateless nonce choice and delivery order); static keys come from Builder::generate_keypair and ephemerals from the library's own OS RNG (recorded); non-trivial = session finished on both sides and at least one transport message delivered; distinct by (name, suite, payload length vector, transport script)",
     technique: "round-trip property over generated honest sessions with real randomness (proptest + name-space enumeration); pattern message counts from an independent table",
     assumptions: &["the number of messages per pattern is taken from the harness's own transcription of the specification's pattern table"],
-    panic_is_violation: false,
+    panic_is_violation: true,
     needs_refnoise: false,
 };
 
